@@ -351,7 +351,7 @@ def g_translate_case(r):
 
 def g_functions_case(r):
     x = r.random()
-    flags = '' if x < 0.5 else (r.choice('smixq') if x < 0.9 else ''.join(sorted(r.sample('smixq', 2))))
+    flags = '' if x < 0.5 else (r.choice('smixq') if x < 0.8 else ''.join(r.sample('smixq', r.choice([2, 2, 3]))))
     asc = 'i' in flags
     g = Gen(r, 'xpath', ascii_only=asc, clean=r.random() < 0.85)
     p = g.regexp()
@@ -1170,6 +1170,9 @@ SEED_FUNCTIONS = [
     ('The cat sat', '\\s+', ''), ('a1b22c', '\\d+', ''), ('+', '(()[\\C])', ''), ('ac', 'a((x)|(c))', ''),
     ('ac', 'a(b?)c', ''), ('xacy', 'a(b?)c', ''), ('k=;j=1;', '([a-z])=([0-9]*);', ''), ('aXc', 'a(x?)X(y*)c', ''),
     ('ab', '(x*)a(y*)b(z*)', ''), ('abab', 'a(x?)(y?)b', ''), ('ac', 'a((b?)c)', ''),
+    # flag combinations: every letter must take effect in every function
+    ('1A\nb2', 'a.b', 'is'), ('1A\nb2', 'a.b', 'si'), ('xAby', 'a b', 'ix'), ('xAby', 'a b', 'xi'), ('Ab\nAB', 'b.a', 'is'),
+    ('xA\nby', 'a . b', 'isx'), ('xA\nby', 'a . b', 'xsi'), ('q\nQ', 'q.q', 'smi'),
 ]
 
 
